@@ -492,8 +492,9 @@ func (res *result) desc(lenient bool) descT {
 	return d
 }
 
-// emit writes the case (twice when the processor died: the second, lenient copy is judged on
-// everything but the missing reply, so that the known finding F11 cannot hide another violation)
+// emit writes the case (twice when it shows a recorded finding - the processor died, or a PLog write
+// that failed after its effect was answered 5xx and applied: the second, lenient copy is judged on
+// everything but that finding's clause, so that a known finding cannot hide another violation)
 func (res *result) emit(out *kit.Out) {
 	tags := []string{fmt.Sprintf("tl:%d", res.sc.TL)}
 	seen := map[string]bool{}
@@ -557,11 +558,32 @@ func (res *result) emit(out *kit.Out) {
 			add("crash:without-plog-fault")
 		}
 	}
+	// signature of C01-F2: a command whose PLog write reported an error after taking effect was answered
+	// with an error and is nevertheless in the partition log read back at the end
+	inLog := map[uint64]bool{}
+	for _, x := range res.dump.plog {
+		inLog[x.tag] = true
+	}
+	f2, stamp := false, uint64(0)
+	for _, st := range res.sc.Steps {
+		if st.Kind != "cmd" {
+			continue
+		}
+		stamp++
+		for _, f := range st.Faults {
+			if f.Fired && f.Target == tPLog && f.Kind == fAfter && res.replies[stamp-1].class != "ok" && inLog[stamp] {
+				f2 = true
+			}
+		}
+	}
+	if f2 {
+		add("C01-F2:plog-error-after-effect-answered-5xx-yet-applied")
+	}
 	out.Emit(kit.Case{Coq: res.coq(false), Key: key.String(), Nontrivial: firedAny, Desc: res.desc(false), Tags: tags})
-	if res.crashes > 0 {
+	if res.crashes > 0 || f2 {
 		lt := []string{}
 		for _, t := range tags {
-			if !strings.HasPrefix(t, "F11:") {
+			if !strings.HasPrefix(t, "F11:") && !strings.HasPrefix(t, "C01-F2:") {
 				lt = append(lt, t)
 			}
 		}
